@@ -26,7 +26,7 @@ PROP = "C19"
 # Which source the model-of-the-code expects: False = kira as it is (Sub<f64> keeps the fraction modulo 1
 # when the tick count saturates, Sub<u64> is a plain u64 subtraction), True = subtraction stops at zero.
 # Only affects the drift comparison and the model-checking run, never the verdict on recorded traces.
-FIXED = False
+FIXED = True
 
 MANIFEST = dict(
     level="other", design_ref="DESIGN.md 8 (C19), 7 (TimeArith), 10",
